@@ -925,7 +925,7 @@ class ClassAttributeChecker:
         self, typ: type, attr_name: str, node: ast.AST, visitor: "NameCheckVisitor"
     ) -> None:
         # class itself has the attribute
-        if hasattr(typ, attr_name):
+        if safe_hasattr(typ, attr_name):
             return
         # the attribute is in __annotations__, e.g. a dataclass
         if _has_annotation_for_attr(typ, attr_name) or attributes.get_attrs_attribute(
@@ -943,11 +943,13 @@ class ClassAttributeChecker:
 
         # name mangling; typ may be a super object, which has no __name__
         cls = typ.__thisclass__ if isinstance(typ, super) else typ
-        if attr_name.startswith("__") and hasattr(typ, f"_{cls.__name__}{attr_name}"):
+        if attr_name.startswith("__") and safe_hasattr(
+            typ, f"_{cls.__name__}{attr_name}"
+        ):
             return
 
         # can't be sure whether it exists if class has __getattr__
-        if hasattr(typ, "__getattr__") or (
+        if safe_hasattr(typ, "__getattr__") or (
             typ.__getattribute__ is not object.__getattribute__
         ):
             return
@@ -963,7 +965,7 @@ class ClassAttributeChecker:
             return
 
         # web browser test classes
-        if attr_name == "browser" and hasattr(typ, "_pre_setup"):
+        if attr_name == "browser" and safe_hasattr(typ, "_pre_setup"):
             return
 
         base_classes_examined = {typ}
@@ -981,7 +983,7 @@ class ClassAttributeChecker:
             # attribute was set on the base class
             if attr_name in self.attributes_set[
                 self.serialize_type(base_cls)
-            ] or hasattr(base_cls, attr_name):
+            ] or safe_hasattr(base_cls, attr_name):
                 return
 
             base_classes_examined.add(base_cls)
@@ -1003,7 +1005,7 @@ class ClassAttributeChecker:
 
                 if attr_name in self.attributes_set[
                     self.serialize_type(base_cls)
-                ] or hasattr(base_cls, attr_name):
+                ] or safe_hasattr(base_cls, attr_name):
                     return
 
                 if self._should_reject_unexamined(base_cls):
